@@ -51,7 +51,10 @@ def check_tree(system: model.System) -> List[Viol]:
     seen: Dict[int, str] = {}
     for k, o in allobjects.items():
         if o.fullName() != k:
-            out.append(('I1-key-mismatch,type=' + _t(o), f'registered as {k!r} but fullName() is {o.fullName()!r}'))
+            # is the stale key that of a superseded duplicate (or of something below one)?  Those hang off their
+            # parent without being in its contents, so a move of the parent does not see them.
+            sup = int(any(DUP_RE.match(part) for part in k.split('.')))
+            out.append((f'I1-key-mismatch,type={_t(o)},superseded={sup}', f'registered as {k!r} but fullName() is {o.fullName()!r}'))
         if id(o) in seen:
             out.append(('I1-two-keys,type=' + _t(o), f'{o!r} registered as {seen[id(o)]!r} and {k!r}'))
         seen[id(o)] = k
@@ -236,7 +239,7 @@ def binding_matches(world: Dict[str, Any], obj: Optional[model.Documentable], b:
     return isinstance(obj, model.Module) and marker_of(obj) == mid
 
 
-GUARANTEED_ROUTES = ('local', 'from', 'from-as', 'import-attr', 'import-as-attr', 'frompkg-attr')
+GUARANTEED_ROUTES = ('local', 'from', 'from-as', 'import-attr', 'import-as-attr', 'frompkg-attr', 'classscope-import-as-attr')
 
 
 def check_bindings(world: Dict[str, Any], system: model.System, require: bool = True) -> List[Viol]:
@@ -359,6 +362,11 @@ def _direct(world: Dict[str, Any], modname: str, ref: Dict[str, Any]) -> bool:
     if route in ('from', 'from-as'):
         org = truth['origin'].get(f'{modname}:{expr}')
         return bool(org) and org[0] == d['module'] and org[1] == d['name']
+    if route == 'classscope-import-as-attr':
+        via = ref.get('via')
+        head, _, last = expr.rpartition('.')
+        return via == d['module'] and last == d['name'] and '.' not in head and \
+            truth['routes'].get(f'{via}:{d["name"]}', 'local') == 'local'
     if route in ('import-attr', 'import-as-attr', 'frompkg-attr'):
         via = ref.get('via')
         if not (via == d['module'] and truth['routes'].get(f'{via}:{d["name"]}', 'local') == 'local'):
@@ -467,7 +475,7 @@ def _judgeable(world: Dict[str, Any], cid: int) -> bool:
             if ref.get('id') is None:
                 return False
             if not (ref.get('route') in GUARANTEED_ROUTES + ('classscope',) and
-                    (_direct(world, modname, ref) or ref.get('route') in ('local', 'classscope'))):
+                    (_direct(world, modname, ref) or ref.get('route') in ('local', 'classscope'))):  # noqa
                 return False
             stack.append(ref['id'])
     return True
@@ -622,6 +630,7 @@ def check_references(world: Dict[str, Any], system: Any) -> List[Viol]:
                     if got2 is None or marker_of(got2) != mid:
                         out.append((f'ref=member-via-import,route={via}', f'in {modname}, {name}.{mname!s} resolves to {got2!r}, expected member M{mid}'))
                     break
+    out.extend(_check_links(world, system, bym))
     # base classes
     for modname, m in world['modules'].items():
         for scope, st in W.iter_stmts(m['body']):
@@ -654,4 +663,103 @@ def check_references(world: Dict[str, Any], system: Any) -> List[Viol]:
                 if bo is None or marker_of(bo) != i:
                     out.append((f'ref=base,route={via},self_moved={int(bool(truth["reexporters"].get(str(_top(world, st["id"])))))}',
                                 f'base {ref["expr"]!r} of M{st["id"]} in {modname} (imported from the {via} module) is {bo!r}, expected M{i}'))
+    return out
+
+
+def _href(tag: Any) -> Optional[str]:
+    """First href found in a stan tree."""
+    from twisted.web.template import Tag
+    stack = [tag]
+    while stack:
+        t = stack.pop(0)
+        if isinstance(t, Tag):
+            if t.tagName == 'a' and 'href' in t.attributes:
+                return str(t.attributes['href'])
+            stack = list(t.children) + stack
+        elif isinstance(t, (list, tuple)):
+            stack = list(t) + stack
+    return None
+
+
+def _check_links(world: Dict[str, Any], system: Any, bym: Dict[int, List[Any]]) -> List[Viol]:
+    """C07 clause 2, link level: docstring cross-references (by the local name, the old and the new qualified
+    name) and annotations that name a re-exported object produce a hyperlink to its one page/anchor.  Uses the
+    real linkers (Documentable.docstring_linker.link_xref, linker._AnnotationLinker.link_to)."""
+    from pydoctor import linker as _linker
+    import contextlib
+    import io
+    out: List[Viol] = []
+    truth = world['truth']
+    defs = truth['defs']
+    routes = truth['routes']
+    origin = truth['origin']
+    seen_sigs: Set[str] = set()
+    for modname, ns in truth['ns'].items():
+        scope_obj = system.allobjects.get(modname)
+        if not isinstance(scope_obj, model.Module):
+            continue
+        funcs = [o for o in scope_obj.contents.values() if isinstance(o, model.Function)]
+        for name, b in ns.items():
+            if b[0] != 'd':
+                continue
+            i = b[1]
+            d = defs[str(i)]
+            if d['outer'] is not None or not truth['reexporters'].get(str(i)) or d['kind'] not in ('class', 'func'):
+                continue
+            if not truth.get('reexport_direct', {}).get(str(i), True):
+                continue
+            objs = bym.get(i, [])
+            if len(objs) != 1:
+                continue
+            target = objs[0]
+            route = routes.get(f'{modname}:{name}', 'local')
+            org = origin.get(f'{modname}:{name}')
+            if route in ('from', 'from-as') and org:
+                if org[0] == d['module'] and org[1] == d['name']:
+                    via = 'defining'
+                elif [org[0], org[1]] == truth['loc'][str(i)]:
+                    via = 'reexporter'
+                else:
+                    continue
+            elif route == 'local':
+                via = 'local'
+            else:
+                continue
+            want = target.url
+            cands = [(f'xref-local,route={via}', name),
+                     ('xref-old-qualified', f'{d["module"]}.{d["name"]}'),
+                     ('xref-new-qualified', expected_fullname(world, i))]
+            buf = io.StringIO()
+            with contextlib.redirect_stdout(buf):
+                for how, ident_ in cands:
+                    sig = f'ref={how}'
+                    if sig in seen_sigs:
+                        continue
+                    if 'qualified' in how and ident_.split('.')[0] in ns:
+                        # the first component is bound locally in this module: the text is then not a
+                        # qualified name but an attribute path through that binding
+                        continue
+                    try:
+                        with scope_obj.docstring_linker.switch_context(None):
+                            tag = scope_obj.docstring_linker.link_xref(ident_, ident_, 0)
+                        href = _href(tag)
+                    except Exception as e:   # the linker itself must not raise
+                        href = f'!{type(e).__name__}'
+                    if href != want:
+                        seen_sigs.add(sig)
+                        out.append((sig, f'in {modname}, cross-reference {ident_!r} links to {href!r}, expected {want!r} (M{i})'))
+                if funcs:
+                    sig = f'ref=annotation,route={via}'
+                    if sig not in seen_sigs:
+                        try:
+                            al = _linker._AnnotationLinker(funcs[0])
+                            tag = al.link_to(name, name)
+                            href = _href(tag)
+                        except Exception as e:
+                            href = f'!{type(e).__name__}'
+                        page = funcs[0].page_object.url
+                        ok = href == want or (href is not None and want.startswith(page + '#') and href == want[len(page):])
+                        if not ok:
+                            seen_sigs.add(sig)
+                            out.append((sig, f'annotation {name!r} on {funcs[0].fullName()} links to {href!r}, expected {want!r} (M{i})'))
     return out
